@@ -464,6 +464,9 @@ func (self *_parser) parseBracketMember(left ast.Expression) ast.Expression {
 }
 
 func (self *_parser) parseNewExpression() ast.Expression {
+	self.enterNesting()
+	defer self.leaveNesting()
+
 	idx := self.expect(token.NEW)
 	callee := self.parseLeftHandSideExpression()
 	node := &ast.NewExpression{
@@ -601,6 +604,8 @@ func (self *_parser) parsePostfixExpression() ast.Expression {
 }
 
 func (self *_parser) parseUnaryExpression() ast.Expression {
+	self.enterNesting()
+	defer self.leaveNesting()
 
 	switch self.token {
 	case token.PLUS, token.MINUS, token.NOT, token.BITWISE_NOT:
@@ -903,6 +908,9 @@ func (self *_parser) parseConditionlExpression() ast.Expression {
 }
 
 func (self *_parser) parseAssignmentExpression() ast.Expression {
+	self.enterNesting()
+	defer self.leaveNesting()
+
 	left := self.parseConditionlExpression()
 	var operator token.Token
 	switch self.token {
